@@ -29,6 +29,8 @@ echo "demo_with_change_exit=$WITH demo_without_change_exit=$WITHOUT suite_fail_l
 # run the checks against /repo with the change applied
 cd /verif
 unset CARGO_TARGET_DIR RUSTFLAGS
+# the evidence files describe the unchanged tree: keep them out of the mutant runs
+EVBAK=$(mktemp -d /tmp/evbak.XXXXXX); cp -r /verif/evidence/. $EVBAK/
 git -C /repo apply $DST/patch.diff || { echo "patch does not apply to /repo" | tee -a $LOG; exit 3; }
 RES=""
 for P in $PROPS; do
@@ -36,4 +38,5 @@ for P in $PROPS; do
   if echo "$OUTP" | grep -q "^VIOLATION"; then RES="$RES $P:VIOLATION"; V=$(echo "$OUTP" | grep "^VIOLATION" | head -1); RP=$(echo "$V" | sed 's/.*replay=\([^ ]*\).*/\1/'); cp /verif/$RP $DST/replay_$P.json 2>/dev/null; else RES="$RES $P:missed"; fi
 done
 git -C /repo checkout -- . ; git -C /repo status --short | head -3
+cp -r $EVBAK/. /verif/evidence/; rm -rf $EVBAK
 echo "checks:$RES" | tee -a $LOG
